@@ -64,8 +64,8 @@ var props = map[string]propCfg{
 	"C19": {quick: 400000, thorough: 20000000, coldQuick: 160, coldThorough: 4000, level: "exploration", stallS: 120, engine: "E4 operation histories over a pool of live objects",
 		components:  "real: the 7 writers, the statistics, Consensus, Entropy, Pssm, CountProfile, DistMatrix (its own goroutines, unscheduled here), protein MLDist, the pairwise aligner, LongestORF, Unalign, Transpose, BuildBootstrap, Clone, CloneSeqBag, SubAlign, SelectSites, Sequence.Clone and the in-place mutators; environment: the simulated client (history generator), map-order seam; stubs: none",
 		assumptions: []string{"independence is only demanded of what the statement names (clones, sub-alignments, site selections, cloned sequences); Sample, Append and SequenceChar share storage by design and are not alarmed", "DistMatrix and Phase under seeded schedules are covered by C08 and C16, whose runs snapshot their inputs; here DistMatrix runs with real unscheduled goroutines", "sequences that contain no ORF make Phase crash in a worker (outside C16's quantifier), so Phase is not part of these histories"}},
-	"C11": {quick: 5000, thorough: 300000, level: "exploration", stallS: 300, needsCLI: true, engine: "E3 process-level determinism (+ E1 seeded scheduler for the commands that own a worker pool)",
-		components:  "real: the goalign binary built from the working tree (default go toolchain, seam overlay inactive unless VERIF_MAPSEED / VERIF_CLOCK are set), real files, real OS pipes, real process exits; in sched mode cmd.RootCmd executed in-process with every goroutine of the command under the seeded scheduler; environment: map-order and clock seams, --threads, GOMAXPROCS; stubs: none",
+	"C11": {quick: 5000, thorough: 300000, quickRace: 400, thoroughRace: 20000, level: "exploration", stallS: 300, needsCLI: true, engine: "E3 process-level determinism (+ E1 seeded scheduler for the commands that own a worker pool)",
+		components:  "real: the goalign binary built from the working tree (default go toolchain, seam overlay inactive unless VERIF_MAPSEED / VERIF_CLOCK are set), real files, real OS pipes, real process exits; in sched mode cmd.RootCmd executed in-process with every goroutine of the command under the seeded scheduler, plain and (a batch of its own) under the race detector; environment: map-order and clock seams, --threads, GOMAXPROCS; stubs: none",
 		assumptions: []string{"at process level the OS schedules goroutines: phase / phasent are therefore executed with one thread in both configurations there, and their thread clause is decided in sched mode under two seeded schedules", "stderr is not compared (log.Print stamps real time inside the standard library; warnings are not output)", "every map iteration and clock read of goalign goes through the seams (coverage.seams lists what seamgen rewrote)"}},
 	"C03": {quick: 2000000, thorough: 150000000, coldQuick: 160, coldThorough: 4000, level: "fault_enumeration", stallS: 60, vlimitKB: 8 << 20, acceptExitDeath: true, engine: "E2 simulated stream with fault injection",
 		components:  "real: the 6 lexers and 7 parsers (fasta, phylip strict/relaxed incl. ParseMultiple, nexus, clustal, stockholm, partition), utils.ParseAlignmentAuto, utils.ParseMultiAlignmentsAuto and its parser goroutine, bufio; environment: simFile (io.Reader + io.Closer: fragmentation, empty reads, EOF style, read errors, post-EOF read budget), os.Exit seam; stubs: none",
